@@ -202,3 +202,160 @@ func init() {
 		return Or(cs...)
 	}
 }
+
+// ---------- fastjson (assumed contract of the parser's accessor API) ----------
+//
+// *fastjson.Value is an opaque term; the nil pointer is the literal "zero" of its sort.
+// Observers: jget(v,key) (nil-safe), jtype(v), jstr(v) (unescaped string bytes, nil unless String),
+// jarr(v)/jlen(v) (array elements), jint/jf64/jbool, jtext(v) (v.String()).
+
+var jvSort = Sort("O_P_fastjson_Value")
+var jvNil = Lit(jvSort, "zero")
+
+const (
+	jTypeNull   = 0
+	jTypeObject = 1
+	jTypeArray  = 2
+	jTypeString = 3
+	jTypeNumber = 4
+	jTypeTrue   = 5
+	jTypeFalse  = 6
+)
+
+func jGet(v, key *Term) *Term {
+	if v == jvNil {
+		return jvNil
+	}
+	return App("jget", jvSort, v, key)
+}
+func jType(v *Term) *Term { return App("jtype", SInt, v) }
+func jStr(v *Term) *Term {
+	if v == jvNil {
+		return BytesNil
+	}
+	return App("jstr", SBytes, v)
+}
+
+func (ex *Exec) jPath(st *State, v *Term, keys Value) *Term {
+	if keys == nil {
+		return v
+	}
+	ks := keys.(*SliceVal)
+	n, ok := sliceLen(ks).IntVal()
+	if !ok {
+		panic(unsupported("fastjson Get with symbolic number of keys"))
+	}
+	for i := int64(0); i < n; i++ {
+		v = jGet(v, ex.readElem(st, ks, IntLit(i)).(*Term))
+	}
+	return v
+}
+
+// jsonFacts are ground facts about the observers, instantiated for the terms that occur.
+func jsonFacts(all []*Term) []*Term {
+	var ax []*Term
+	for _, t := range all {
+		if t.open || t.Op != "app" {
+			continue
+		}
+		switch t.Name {
+		case "jget":
+			// member lookup is nil-safe and only objects have members
+			ax = append(ax, Implies(Eq(t.Args[0], jvNil), Eq(t, jvNil)),
+				Implies(Neq(t, jvNil), Eq(jType(t.Args[0]), IntLit(jTypeObject))))
+		case "jstr":
+			ax = append(ax, Implies(Or(Eq(t.Args[0], jvNil), Neq(jType(t.Args[0]), IntLit(jTypeString))), Eq(t, BytesNil)))
+		case "jtype":
+			ax = append(ax, Ge(t, IntLit(0)), Le(t, IntLit(6)))
+		case "jlen":
+			ax = append(ax, Ge(t, IntLit(0)), Implies(Or(Eq(t.Args[0], jvNil), Neq(jType(t.Args[0]), IntLit(jTypeArray))), Eq(t, IntLit(0))))
+		}
+	}
+	return ax
+}
+
+func allAxioms(all []*Term) []*Term {
+	return append(theoryAxioms(all), jsonFacts(all)...)
+}
+
+func init() {
+	pre := "(*fastjson.Value)."
+	externals[pre+"Get"] = func(ex *Exec, st *State, a []Value, x *ssa.Call) Value {
+		return ex.jPath(st, a[0].(*Term), a[1])
+	}
+	externals[pre+"Exists"] = func(ex *Exec, st *State, a []Value, x *ssa.Call) Value {
+		return Neq(ex.jPath(st, a[0].(*Term), a[1]), jvNil)
+	}
+	externals[pre+"GetStringBytes"] = func(ex *Exec, st *State, a []Value, x *ssa.Call) Value {
+		return jStr(ex.jPath(st, a[0].(*Term), a[1]))
+	}
+	externals[pre+"Type"] = func(ex *Exec, st *State, a []Value, x *ssa.Call) Value {
+		v := a[0].(*Term)
+		ex.panicIf(st, Eq(v, jvNil), "nil-deref(*fastjson.Value).Type", x.Pos())
+		return ex.known(jType(v))
+	}
+	externals[pre+"String"] = func(ex *Exec, st *State, a []Value, x *ssa.Call) Value {
+		return App("jtext", SStr, a[0].(*Term))
+	}
+	externals[pre+"MarshalTo"] = func(ex *Exec, st *State, a []Value, x *ssa.Call) Value {
+		return BCat(a[1].(*Term), S2B(App("jtext", SStr, a[0].(*Term))))
+	}
+	externals[pre+"GetArray"] = func(ex *Exec, st *State, a []Value, x *ssa.Call) Value {
+		v := ex.jPath(st, a[0].(*Term), a[1])
+		ln := ex.known(App("jlen", SInt, v))
+		isArr := ex.known(And(Neq(v, jvNil), Eq(ex.known(jType(v)), IntLit(jTypeArray))))
+		o := ex.newObj("jarr:"+v.String(), OSymArr, x.Type().Underlying().(*types.Slice).Elem())
+		arr := App("jarr", ArraySort(jvSort), v)
+		o.init = func() Value { return arr }
+		el := x.Type().Underlying().(*types.Slice).Elem()
+		return &SliceVal{Elem: el, Alts: []SliceAlt{{C: Not(isArr), Off: IntLit(0), Len: IntLit(0)}, {C: isArr, O: o, Off: IntLit(0), Len: ln}}}
+	}
+	externals[pre+"GetInt64"] = func(ex *Exec, st *State, a []Value, x *ssa.Call) Value {
+		return App("jint", SInt, ex.jPath(st, a[0].(*Term), a[1]))
+	}
+	externals[pre+"GetInt"] = externals[pre+"GetInt64"]
+	externals[pre+"GetUint"] = func(ex *Exec, st *State, a []Value, x *ssa.Call) Value {
+		r := App("juint", SInt, ex.jPath(st, a[0].(*Term), a[1]))
+		ex.assume(Ge(r, IntLit(0)))
+		return r
+	}
+	externals[pre+"GetUint64"] = externals[pre+"GetUint"]
+	externals[pre+"GetFloat64"] = func(ex *Exec, st *State, a []Value, x *ssa.Call) Value {
+		return App("jf64", SReal, ex.jPath(st, a[0].(*Term), a[1]))
+	}
+	externals[pre+"GetBool"] = func(ex *Exec, st *State, a []Value, x *ssa.Call) Value {
+		v := ex.jPath(st, a[0].(*Term), a[1])
+		return Eq(jType(v), IntLit(jTypeTrue))
+	}
+	externals[pre+"Bool"] = func(ex *Exec, st *State, a []Value, x *ssa.Call) Value {
+		v := a[0].(*Term)
+		ex.panicIf(st, Eq(v, jvNil), "nil-deref(*fastjson.Value).Bool", x.Pos())
+		isT, isF := Eq(jType(v), IntLit(jTypeTrue)), Eq(jType(v), IntLit(jTypeFalse))
+		e := freshErr(ex, "jbool")
+		return &TupleVal{V: []Value{isT, Ite(Or(isT, isF), ErrNil, e)}}
+	}
+	externals["(*fastjson.Parser).ParseBytes"] = func(ex *Exec, st *State, a []Value, x *ssa.Call) Value {
+		data := a[1].(*Term)
+		v := App("jparse", jvSort, data)
+		e := App("jparse.err", SErr, data)
+		ex.assume(Implies(Eq(e, ErrNil), Neq(v, jvNil)))
+		ex.assume(Implies(Neq(e, ErrNil), Eq(v, jvNil)))
+		return &TupleVal{V: []Value{v, e}}
+	}
+	externals["(*fastjson.Parser).Parse"] = func(ex *Exec, st *State, a []Value, x *ssa.Call) Value {
+		data := S2B(a[1].(*Term))
+		v := App("jparse", jvSort, data)
+		e := App("jparse.err", SErr, data)
+		ex.assume(Implies(Eq(e, ErrNil), Neq(v, jvNil)))
+		ex.assume(Implies(Neq(e, ErrNil), Eq(v, jvNil)))
+		return &TupleVal{V: []Value{v, e}}
+	}
+}
+
+// known substitutes facts the driver fixed for a term (e.g. the length of a JSON array).
+func (ex *Exec) known(t *Term) *Term {
+	if r, ok := ex.knownTerms[t]; ok {
+		return r
+	}
+	return t
+}
